@@ -73,10 +73,7 @@ func PackTable(table [][]int) ( /*T*/ []int /*D*/, []int /*Check*/, []int) {
 		}
 	}
 	//Trim the zero element at the begin
-	for i := 0; i < len(ret); i++ {
-		if ret[i] != 0 {
-			break
-		}
+	for len(ret) > 0 && ret[0] == 0 {
 		ret = ret[1:]
 		check = check[1:]
 		for j := 0; j < len(row); j++ {
